@@ -246,10 +246,10 @@ func executeBinaryExpr(s *ast.AstProcessBinaryExpression, state ProcessState) Pr
 			final := lhs_state.currentValue.getNumber() * rhs_state.currentValue.getNumber()
 			final_state.currentValue = ProcessValueNumber{final}
 		} else if rhs_state.currentValue.getType() == bytecode.PTNUMBER && s.Op == ast.DIV {
-			final := lhs_state.currentValue.getNumber() / rhs_state.currentValue.getNumber()
+			final := divide(lhs_state.currentValue.getNumber(), rhs_state.currentValue.getNumber())
 			final_state.currentValue = ProcessValueNumber{final}
 		} else if rhs_state.currentValue.getType() == bytecode.PTNUMBER && s.Op == ast.MOD {
-			final := lhs_state.currentValue.getNumber() % rhs_state.currentValue.getNumber()
+			final := modulo(lhs_state.currentValue.getNumber(), rhs_state.currentValue.getNumber())
 			final_state.currentValue = ProcessValueNumber{final}
 		} else {
 			panic("SHOULDN'T GET HERE (string) :(")
@@ -311,16 +311,32 @@ func executeBinaryExpr(s *ast.AstProcessBinaryExpression, state ProcessState) Pr
 			final := lhs_state.currentValue.getNumber() * rhs_state.currentValue.getNumber()
 			final_state.currentValue = ProcessValueNumber{final}
 		} else if s.Op == ast.DIV {
-			final := lhs_state.currentValue.getNumber() / rhs_state.currentValue.getNumber()
+			final := divide(lhs_state.currentValue.getNumber(), rhs_state.currentValue.getNumber())
 			final_state.currentValue = ProcessValueNumber{final}
 		} else if s.Op == ast.MOD {
-			final := lhs_state.currentValue.getNumber() % rhs_state.currentValue.getNumber()
+			final := modulo(lhs_state.currentValue.getNumber(), rhs_state.currentValue.getNumber())
 			final_state.currentValue = ProcessValueNumber{final}
 		} else {
 			panic("SHOULDN'T GET HERE (number) :(")
 		}
 	}
 	return final_state
+}
+
+// divide and modulo follow the coercion rules' convention that an undefined
+// numeric result is 0 (as for a string that is not a number) instead of crashing the search
+func divide(lhs int, rhs int) int {
+	if rhs == 0 {
+		return 0
+	}
+	return lhs / rhs
+}
+
+func modulo(lhs int, rhs int) int {
+	if rhs == 0 {
+		return 0
+	}
+	return lhs % rhs
 }
 
 func executeUnaryExpression(s *ast.AstProcessUnaryExpression, state ProcessState) ProcessState {
